@@ -8,3 +8,10 @@ NOTES = ("Runtime monitoring only: every check runs the real /repo code on gener
 claim("C22", "exploration", "runtime monitor: independent-DFS oracle over the real compilation_order on random graphs",
       "Millions of random package graphs (DAG shapes, parallel edges, both edge kinds, injected cycles and self-loops) are pushed through the real forc_pkg::compilation_order; an independent DFS decides acyclicity and the monitor checks permutation + dependency-before-dependent on every returned order. Exploration is the right level: the function is pure and cheap, so volume and shape diversity reach what a handful of unit graphs cannot.",
       "Trusts petgraph's graph container; graphs are bounded to 30 nodes.")
+
+claim("C20", "exploration", "runtime monitor: graph-in vs graph-out differential through the real Forc.lock writer and reader",
+      "Random resolved package graphs over all five source kinds (renamed edges, salted contract edges, forced disambiguation, adversarial accepted names) plus a fixed list of named corner graphs are written with the serialiser forc uses and read back through Lock::from_path + to_graph; node and edge multisets are compared. The graph is built without the FromStr code under test. Exploration fits: the round trip is pure and microseconds per case.",
+      "Graphs <= 12 packages; parallel edges and cyclic graphs are not generated (forc's resolver cannot produce them); '#', '(' and ')' in git refs are explored only through the fixed named cases (they are listed findings).")
+claim("C21", "exploration", "runtime monitor: never-panics oracle (catch_unwind with call-site signatures) over mutated lock files and source strings",
+      "Millions of fuzzed source strings, dependency lines and mutated generated/repo Forc.lock files go through the real Lock::from_path + to_graph and source::Pinned::from_str under catch_unwind; any panic is reported with a call-site signature. The five slicing panics found on the original tree were repaired by a fix: commit and are recorded as fixed.",
+      "Only the lock-file reading path is driven (not manifest parsing); toml crate internals are trusted.")
